@@ -803,6 +803,17 @@ def _root_name(node: ast.AST) -> str | None:
     return node.id if isinstance(node, ast.Name) else None
 
 
+def _harmless_functions(root: ast.AST) -> Collection[str]:
+    """Builtins that do not change their arguments or anything else, unless the file gives the
+    name another meaning"""
+    return (constants.PURE_BUILTIN_FUNCTIONS | {"print", "isinstance", "type"}) - {
+        name
+        for node, name in _iter_identifier_mentions(root)
+        if not isinstance(node, (ast.Attribute, ast.keyword))
+        and not (isinstance(node, ast.Name) and isinstance(node.ctx, ast.Load))
+    }
+
+
 def _possibly_mutated_names(scope: ast.AST, harmless_functions: Collection[str]) -> Collection[str]:
     """Names of objects that the code in scope may change without binding the name again: by
     storing to or deleting an attribute or item, by an augmented assignment, by calling a method,
@@ -833,13 +844,7 @@ def move_before_loop(source: str) -> str:
         name for node in core.walk(root, (ast.Global, ast.Nonlocal)) for name in node.names
     }
     name_targets = (ast.Name, ast.Tuple, ast.List, ast.Starred, ast.Store)
-    # Builtins that do not change their arguments, unless the file gives the name another meaning
-    harmless_functions = (constants.PURE_BUILTIN_FUNCTIONS | {"print", "isinstance", "type"}) - {
-        name
-        for node, name in _iter_identifier_mentions(root)
-        if not isinstance(node, (ast.Attribute, ast.keyword))
-        and not (isinstance(node, ast.Name) and isinstance(node.ctx, ast.Load))
-    }
+    harmless_functions = _harmless_functions(root)
 
     for scope in core.walk(root, (ast.For, ast.While)):
         header_scope = [scope.target, scope.iter] if isinstance(scope, ast.For) else [scope.test]
@@ -2190,6 +2195,17 @@ def inline_math_comprehensions(source: str) -> str:
             and (assignment.value.func.id in constants.ITERATOR_FUNCTIONS)
     )]
 
+    harmless_functions = tuple(_harmless_functions(root))
+    mutation_template = (
+        ast.Call,
+        ast.AugAssign,
+        ast.Attribute(ctx=(ast.Store, ast.Del)),
+        ast.Subscript(ctx=(ast.Store, ast.Del)),
+        ast.Yield,
+        ast.YieldFrom,
+        ast.Await,
+    )
+
     scope_types = (ast.Module, ast.FunctionDef, ast.ClassDef, ast.AsyncFunctionDef)
     for scope in core.walk(root, scope_types):
         for assignment, target, value in comprehension_assignments:
@@ -2217,6 +2233,20 @@ def inline_math_comprehensions(source: str) -> str:
                 if set_end_charno < start <= end < use_start_charno:
                     blacklist.add(use)
                     break
+
+            if use in blacklist:
+                break
+
+            # What the value is computed from may also change without any of the names being
+            # mentioned: through another name of the same object, or in a function that is called.
+            for node in core.walk(scope, mutation_template):
+                start, end = core.get_charnos(node, source)
+                if not set_end_charno < start <= end < use_start_charno:
+                    continue
+                if core.match_template(node, ast.Call(func=ast.Name(id=harmless_functions))):
+                    continue
+                blacklist.add(use)
+                break
 
             if use in blacklist:
                 break
